@@ -770,10 +770,10 @@ def streams(rng, tier, seed):
            Stream("small-scope", EXE, model_cmd("C13"), exh),
            Stream("small-scope-chained", EXE, model_cmd("C13"), exh_chain)]
     # structured targets: random histories with late-starting fields, and every 3-cycle history of two tsb2 targets
-    n_struct = 900 if quick else 40000
+    n_struct = 900 if quick else 20000
     struct = [gen_struct_case(rng, 500000 + i, maxlen) for i in range(n_struct)]
     ax, ay, bx, by = ("a", 0), ("a", 1), ("b", 0), ("b", 1)
-    out += [Stream("structured", EXE, model_cmd("C13"), struct),
+    out += [Stream("structured", EXE, model_cmd("C13"), struct, timeout=600 if quick else 3600),
             Stream("small-scope-structured", EXE, model_cmd("C13"),
                    exhaustive_struct(rng, "tsb2", 3, 600000, [(), (ax,), (by,), (ay, bx)]))]
     if not quick:
